@@ -433,7 +433,7 @@ def _r_map(root: Any, op: dict, a: Action, idx: Any) -> Action:
     items = [x for x in rawcur if type(x).__name__ == 'MetaItem']
     match = next((x for x in items if x.key == key), None)
     a.shape = f"{name}:{'hit' if match is not None else 'miss'}"
-    a.ref.update(raw_wrapper=raw, rawcur=rawcur, wrapper=w, match=match, items=items)
+    a.ref.update(raw_wrapper=raw, rawcur=rawcur, wrapper=w, match=match, items=items, item_texts=[O.print_text(x) for x in items])
     is_raw = p.kind == 'rawmeta'
     if name == 'set':
         if is_raw:
